@@ -50,6 +50,7 @@ type beh struct {
 	torn    bool     // syntactically broken file
 	preload bool
 	goSide  bool // registered through L.PreloadModule
+	inCo    bool // the dependencies are required from inside a coroutine created by the loader
 }
 
 func (b *beh) id() string {
@@ -67,6 +68,9 @@ func (b *beh) String() string {
 	var parts []string
 	if len(b.deps) > 0 {
 		parts = append(parts, "requires "+strings.Join(b.deps, ","))
+		if b.inCo {
+			parts = append(parts, "from inside a coroutine")
+		}
 	}
 	if b.assign {
 		parts = append(parts, "assigns package.loaded")
@@ -84,8 +88,14 @@ func (b *beh) String() string {
 func body(name string, b *beh) string {
 	var sb strings.Builder
 	fmt.Fprintf(&sb, "LOG[#LOG+1] = \"run:%s:%s\"\n", name, b.id())
+	if b.inCo && len(b.deps) > 0 {
+		sb.WriteString("coroutine.wrap(function()\n")
+	}
 	for _, d := range b.deps {
 		fmt.Fprintf(&sb, "do local ok, r = pcall(require, %q); LOG[#LOG+1] = \"dep:%s:%s:\" .. (ok and \"ok\" or (tostring(r):find(\"loop\") and \"loop\" or \"err\")) end\n", d, name, d)
+	}
+	if b.inCo && len(b.deps) > 0 {
+		sb.WriteString("end)()\n")
 	}
 	if b.assign {
 		fmt.Fprintf(&sb, "package.loaded[%q] = mk(%q, \"A\")\n", name, name)
@@ -311,6 +321,7 @@ func (e *Engine) Run(t *core.Tape, cfg *core.Config, st *core.Stats) (viol *core
 		} else if t.Choose(3) == 0 {
 			b.deps = []string{names[t.Choose(2)]}
 		}
+		b.inCo = len(b.deps) > 0 && t.Choose(4) == 0
 		return b
 	}
 	reduced := cfg.Sub == "short"
@@ -574,7 +585,7 @@ func (e *Engine) Run(t *core.Tape, cfg *core.Config, st *core.Stats) (viol *core
 			if reduced {
 				continue
 			}
-			hm := "hostmod" + fmt.Sprint(t.Choose(2))
+			hm := []string{"hostmod0", "hostmod1", "hostpkg.util", "hostpkg.sub.deep", "hostmod0.ext"}[t.Choose(5)]
 			L.RegisterModule(hm, map[string]lua.LGFunction{"f": func(L *lua.LState) int { return 0 }})
 			res, v := runLua(fmt.Sprintf("local ok, r = pcall(require, %q); return tostring(ok) .. \":\" .. tostring(rawequal(r, %s)) .. \":\" .. type(%s)", hm, hm, hm))
 			if v != nil {
